@@ -157,6 +157,21 @@ func c18NewCmFix(target int) (*c18CmFix, error) {
 
 // wait polls pred (under the lock) until it holds or the bound expires.
 func (f *c18CmFix) wait(pred func() bool, bound time.Duration) bool {
+	// a healthy manager always reacts within microseconds; once a few reactions have gone missing
+	// (broken implementation) do not spend the full bound on every further step
+	if c18CmTimeouts >= 5 {
+		bound = 150 * time.Millisecond
+	}
+	ok := f.wait1(pred, bound)
+	if !ok {
+		c18CmTimeouts++
+	}
+	return ok
+}
+
+var c18CmTimeouts int
+
+func (f *c18CmFix) wait1(pred func() bool, bound time.Duration) bool {
 	deadline := time.Now().Add(bound)
 	for i := 0; ; i++ {
 		f.mu.Lock()
